@@ -78,6 +78,70 @@ fn greeting_bytes() -> impl Strategy<Value = B> {
     ]
 }
 
+// ---- Client::connect on arbitrary greetings ---------------------------------------------------------
+
+#[derive(Debug, Clone, Serialize, Deserialize)]
+pub struct ClientGreetingCase {
+    pub bytes: B,
+    pub seg: SegPattern,
+    pub sched_seed: u64,
+}
+
+fn check_client_greeting(case: &ClientGreetingCase) -> CaseResult {
+    let mut r = CaseResult::new();
+    let want = crate::refdec::classify_greeting(&case.bytes);
+    if let Greeting::Valid(_, n) = &want {
+        if *n != case.bytes.len() {
+            // bytes after the greeting line: a server sends none before it has read a command
+            r.class("bytes_after_greeting_skipped");
+            return r;
+        }
+    }
+    let mut script = Script::new(vec![]);
+    script.seg = case.seg.clone();
+    script.sched_seed = case.sched_seed;
+    script.greeting = Some(case.bytes.clone());
+    let obs = sim::run(&script);
+    if obs.panics > 0 {
+        r.fail(format!("panic during Client::connect: {:?}", crate::core::last_panic()));
+        return r;
+    }
+    let err = obs.connect_error.clone();
+    let ok = match &want {
+        Greeting::Valid(v, _) => {
+            r.class("valid");
+            err.is_none() && obs.version.as_deref() == Some(v.as_str())
+        }
+        Greeting::Invalid => {
+            r.class("invalid_line");
+            r.nontrivial();
+            err.as_deref().is_some_and(|e| e.contains("InvalidMessage"))
+        }
+        Greeting::UnexpectedEof => {
+            r.class("ends_before_line_end");
+            r.nontrivial();
+            err.as_deref().is_some_and(|e| e.contains("UnexpectedEof"))
+        }
+        Greeting::InvalidOrEof => {
+            r.class("mismatching_and_unterminated");
+            r.nontrivial();
+            err.as_deref().is_some_and(|e| e.contains("UnexpectedEof") || e.contains("InvalidMessage"))
+        }
+    };
+    if case.seg != SegPattern::Whole && case.bytes.len() > 1 {
+        r.nontrivial();
+    }
+    if !ok {
+        r.fail(format!(
+            "Client::connect on {:?} under {:?}: error {err:?}, version {:?}; the greeting grammar says {want:?}",
+            escape_bytes(&case.bytes),
+            case.seg,
+            obs.version
+        ));
+    }
+    r
+}
+
 // ---- Client::connect over the simulator ----------------------------------------------------------
 
 #[derive(Debug, Clone, Serialize, Deserialize)]
@@ -233,6 +297,17 @@ pub fn property(_tier: Tier) -> Property {
                         .boxed()
                 }),
                 check: Box::new(check_greeting),
+            }),
+            Box::new(RandomPart {
+                name: "client_greeting",
+                rule: "proptest over the simulator: the same greeting byte classes fed to Client::connect under whole/per-line/one-byte/chunked segmentation, the peer closing after them; connect must succeed with the version verbatim iff the bytes are a valid greeting line, otherwise fail with InvalidMessage / UnexpectedEof as the greeting grammar says. non-trivial = invalid or segmented",
+                cases: (5_000, 300_000),
+                strategy: Box::new(|_t| {
+                    (greeting_bytes(), crate::props::simgen::seg_pattern(), any::<u64>())
+                        .prop_map(|(bytes, seg, sched_seed)| ClientGreetingCase { bytes, seg, sched_seed })
+                        .boxed()
+                }),
+                check: Box::new(check_client_greeting),
             }),
             Box::new(RandomPart {
                 name: "password",
